@@ -110,6 +110,12 @@ var c07Items = []c07Item{
 		return (a - b) / (a + 1), ok
 	}},
 	{"sum(v) * sum(v) AS sq", "sq", func(g c07Group) (float64, bool) { a, ok := agg1(ref.Sum, g.V); return a * a, ok }},
+	// a column whose name has an upper-case letter
+	{"max(vLoad) - avg(vLoad) AS ml", "ml", func(g c07Group) (float64, bool) {
+		a, ok := agg1(ref.Max, g.V)
+		b, _ := agg1(ref.Mean, g.V)
+		return a - b, ok
+	}},
 }
 
 type c07Having struct {
@@ -238,7 +244,7 @@ func hasAll(items []int, need []int) bool {
 }
 
 func c07Progs(tier string) []c07Prog {
-	itemSets := [][]int{{0}, {1}, {2}, {3}, {4}, {5}, {6}, {8}, {9}, {10}, {11}, {12}, {13}, {14}, {0, 7}, {0, 1, 4}, {7, 0, 2}, {0, 6, 7}, {8, 4}, {14, 0}, {9, 10, 12}, {11, 0}, {13, 5}, {15}, {16}, {15, 0, 16}}
+	itemSets := [][]int{{0}, {1}, {2}, {3}, {4}, {5}, {6}, {8}, {9}, {10}, {11}, {12}, {13}, {14}, {0, 7}, {0, 1, 4}, {7, 0, 2}, {0, 6, 7}, {8, 4}, {14, 0}, {9, 10, 12}, {11, 0}, {13, 5}, {15}, {16}, {15, 0, 16}, {17}, {17, 0}}
 	var out []c07Prog
 	for _, its := range itemSets {
 		for h := range c07Havings {
@@ -502,8 +508,10 @@ func c07Feed(ds []c07Group) func(e *Env) {
 				row := Row{"k": g.K, "ts": 100 + id*10, "id": id}
 				if g.V[i].Usable() {
 					row["v"] = g.V[i].F
+					row["vLoad"] = g.V[i].F // the same value under a name with an upper-case letter
 				} else {
 					row["v"] = nil
+					row["vLoad"] = nil
 				}
 				if g.W2[i].Usable() {
 					row["w2"] = g.W2[i].F
@@ -511,7 +519,7 @@ func c07Feed(ds []c07Group) func(e *Env) {
 				e.Emit(row)
 			}
 		}
-		e.Emit(Row{"k": "zz", "ts": 90000, "v": 0, "w2": 0, "id": 999})
+		e.Emit(Row{"k": "zz", "ts": 90000, "v": 0, "vLoad": 0, "w2": 0, "id": 999})
 	}
 }
 
